@@ -47,8 +47,12 @@ NOTE_E4 = "Trusts penguin-simnet to behave like the part of tokio::net the crate
 claim("C19","syssim","fault_enumeration",
  "The real client runs against a scripted server (refuse / stall / HTTP 403 / orderly close after d / TCP reset after d / ignore after handshake / real healthy server, one behaviour per attempt) under the paused clock: every retry instant is compared exactly with the closed back-off formula, the give-up point with max_retry_count, and parked local connections must be echoed by the next healthy connection.",
  NOTE_E4, "deterministic whole-system simulation (real client + server over a simulated tokio::net, virtual time) with scripted connection-lifecycle faults", "DESIGN.md §6 C19")
-for p in ["C01","C14"]:
-    na(p, "check not built yet in this session (planned, see DESIGN.md §6); not claimed until its command exists")
+claim("C01","syssim","exploration",
+ "Real client + real server over the simulated network between RFC-written local clients (fixed TCP / Unix remotes, SOCKS4/4a/5, HTTP CONNECT, UDP remotes, SOCKS5 UDP ASSOCIATE) and simulated targets; byte-stream model per direction, half-close propagation, closed-not-hanging on refuse/early close, UDP replies to exactly the originating client from the address it sent to, RFC 1928 header well-formedness; seeded latency, partial I/O, spurious Pending, tiny socket buffers, and UDP loss/dup/reorder in a separate relaxed configuration.",
+ NOTE_E4 + " The production window (512 frames) cannot be changed without a hook, so window dynamics are exercised only by the occasional 6 MiB transfer; they are decided in C02-C04.", "deterministic whole-system simulation (real client + server over a simulated tokio::net, virtual time) with network fault injection", "DESIGN.md §6 C01")
+claim("C14","syssim","exploration",
+ "The gate is driven through a live hyper connection over the simulated network: all requests within two factor deviations of the valid one x 4 configurations are enumerated (2540 cells), higher orders sampled, each under a seeded fragmentation, each with its twin on an unknown path; reference predicate for 101, RFC 6455 accept hash, a real tunnel after 101, byte-for-byte indistinguishability otherwise.",
+ NOTE_E4 + " The decisive dimension is an input/configuration matrix; the simulator contributes the live connection and the fragmentation schedule. No backend configured (404 case only).", "deterministic whole-system simulation: request-matrix enumeration through real hyper over a simulated tokio::net with seeded fragmentation", "DESIGN.md §6 C14")
 na("C09","pure codec function of one complete buffer (quantifier: inputs only): no schedule, clock, fault or interleaving for a simulator to decide; see DESIGN.md §6 C09")
 na("C17","outcome is a function of the TLS configuration cell alone; handshake randomness has no seam, so one seed cannot be one repeatable execution; see DESIGN.md §6 C17")
 na("C20","sequential data structure compared with Vec<u8>: no concurrency, time, I/O or fault to simulate; see DESIGN.md §6 C20")
